@@ -182,6 +182,8 @@ func init() {
 			e.fr.val[x] = r
 			return true
 		},
+		"io/ioutil.ReadFile": readFileExt, "os.ReadFile": readFileExt,
+		"io/ioutil.WriteFile": writeFileExt, "os.WriteFile": writeFileExt,
 		"io/ioutil.ReadDir": func(e *enc, x *ssa.Call, a []Term) bool {
 			// (entries, error): the entries of a successful listing are non-nil
 			ss := e.so.of(x.Call.Signature().Results().At(0).Type())
@@ -255,6 +257,59 @@ func (e *enc) pathExt(p Term) Term {
 	return r
 }
 
+// Ghost file system: one memory component mapping a path to the file's content. ReadFile returns the bytes of the current
+// content (the error result is unconstrained: callers that go on have checked it), WriteFile replaces it.
+const fsKey = "X:fs"
+
+func (e *enc) fsMem() string {
+	if _, ok := e.mem[fsKey]; !ok {
+		if v, ok := e.init[fsKey]; ok {
+			e.mem[fsKey] = v
+			return fsKey
+		}
+		e.memSort[fsKey] = "(Array String String)"
+		e.mem[fsKey] = e.fresh("fs0", "(Array String String)")
+		e.init[fsKey] = e.mem[fsKey]
+		for f := e.fr; f != nil; f = f.parent {
+			if f.entryMem != nil {
+				if _, ok := f.entryMem[fsKey]; !ok {
+					f.entryMem[fsKey] = e.mem[fsKey]
+				}
+			}
+		}
+		if e.initMem != nil {
+			e.initMem[fsKey] = e.mem[fsKey]
+		}
+		e.assumps["ghost file system: a file's content changes only through ioutil.WriteFile / os.WriteFile calls of the verified code; ReadFile returns the current content"] = true
+	}
+	return fsKey
+}
+
+func readFileExt(e *enc, x *ssa.Call, a []Term) bool {
+	k := e.fsMem()
+	bs := e.so.of(x.Call.Signature().Results().At(0).Type())
+	bo := e.uf("BytesOf", []string{"String"}, bs)
+	so := e.uf("StrOf", []string{bs}, "String")
+	content := fmt.Sprintf("(select %s %s)", e.mem[k], a[0])
+	r := e.define("filebytes", bs, fmt.Sprintf("(%s %s)", bo, content))
+	e.assume(fmt.Sprintf("(and (= (%s %s) %s) (= (len_%s %s) (str.len %s)))", so, r, content, bs, r, content))
+	e.fr.tuples[x] = []Term{r, e.fresh("readerr", "Int")}
+	return true
+}
+
+func writeFileExt(e *enc, x *ssa.Call, a []Term) bool {
+	k := e.fsMem()
+	bs := e.so.of(x.Call.Args[1].Type())
+	so := e.uf("StrOf", []string{bs}, "String")
+	e.n++
+	name := fmt.Sprintf("m_fs_%d", e.n)
+	e.decls = append(e.decls, fmt.Sprintf("(declare-const %s (Array String String))", name))
+	e.defs = append(e.defs, fmt.Sprintf("(= %s (store %s %s (%s %s)))", name, e.mem[k], a[0], so, a[1]))
+	e.mem[k] = name
+	e.fr.val[x] = e.fresh("writeerr", "Int")
+	return true
+}
+
 func (e *enc) caseAxioms() {
 	e.once("case#ax", func() {
 		e.assumps["strings.ToUpper/ToLower: length preserving, idempotent, and characterised on ASCII letters only (non-ASCII case mapping is not modelled)"] = true
@@ -303,6 +358,13 @@ func (e *enc) joinAxioms() {
   (=> (<= (len_%[1]s a) 0) (= (JoinF a p) ""))
   (=> (= (len_%[1]s a) 1) (= (JoinF a p) (select (arr_%[1]s a) 0)))
   (=> (= (len_%[1]s a) 2) (= (JoinF a p) (str.++ (select (arr_%[1]s a) 0) p (select (arr_%[1]s a) 1))))) :pattern ((JoinF a p)))))`, ss))
+		e.assumps["strings.Join / strings.Split are inverse: Join(Split(s, p), p) == s; Split(Join(a, p), p) has the elements of a when a is non-empty and no element contains p (p non-empty)"] = true
+		e.decls = append(e.decls, fmt.Sprintf(`(assert (forall ((s String) (p String)) (! (=> (> (str.len p) 0) (= (JoinF (SplitF s p) p) s)) :pattern ((JoinF (SplitF s p) p)))))`))
+		e.decls = append(e.decls, fmt.Sprintf(`(assert (forall ((a %[1]s) (p String)) (! (=> (and (> (str.len p) 0) (>= (len_%[1]s a) 1)
+    (forall ((k Int)) (=> (and (<= 0 k) (< k (len_%[1]s a))) (not (str.contains (select (arr_%[1]s a) k) p)))))
+   (and (= (len_%[1]s (SplitF (JoinF a p) p)) (len_%[1]s a))
+        (forall ((k Int)) (! (=> (and (<= 0 k) (< k (len_%[1]s a))) (= (select (arr_%[1]s (SplitF (JoinF a p) p)) k) (select (arr_%[1]s a) k))) :pattern ((select (arr_%[1]s (SplitF (JoinF a p) p)) k))))))
+  :pattern ((SplitF (JoinF a p) p)))))`, ss))
 	})
 }
 
